@@ -68,14 +68,22 @@ PROG_TWICE = r"""
 import contextlib, io, json, os, sys
 from ariadne_codegen.main import client
 root = sys.argv[1]
-for sub in ("first", "second"):
-    cfg = dict(schema_path=os.path.join(root, "schema.graphql"), queries_path=os.path.join(root, "queries.graphql"),
-               target_package_name="pkg", target_package_path=os.path.join(root, sub), include_comments="none",
-               scalars={"Money": {"type": "client.scalars.Money", "parse": "client.scalars.parse_money", "serialize": "client.scalars.ser_money"}},
-               plugins=json.loads(sys.argv[2]))
+# ONE configuration (the same objects: scalars dict, plugin list, files_to_include list) used for both generations
+files = [os.path.join(root, "extra_helpers.py")]
+scalars = {"Money": {"type": "client.scalars.Money", "parse": "client.scalars.parse_money", "serialize": "client.scalars.ser_money"}}
+plugins = json.loads(sys.argv[2])
+cfg = dict(schema_path=os.path.join(root, "schema.graphql"), queries_path=os.path.join(root, "queries.graphql"),
+           target_package_name="pkg", include_comments="none", scalars=scalars, plugins=plugins, files_to_include=files)
+config = {"tool": {"ariadne-codegen": cfg}}
+for sub in ("first", "second", "edited"):
+    if sub == "edited":
+        # the operations file is edited in place: the next generation in this interpreter sees the new text
+        with open(os.path.join(root, "queries.graphql"), "a") as f:
+            f.write("\nquery AddedLater { me { id name } }\n")
+    cfg["target_package_path"] = os.path.join(root, sub)
     os.makedirs(os.path.join(root, sub), exist_ok=True)
     with contextlib.redirect_stdout(io.StringIO()):
-        client({"tool": {"ariadne-codegen": cfg}})
+        client(config)
 """
 
 
@@ -94,6 +102,7 @@ def replay_generation(seeds=(0, 1, 2, 3, 1000)):
         try:
             open(os.path.join(base, "schema.graphql"), "w").write(SCHEMA)
             open(os.path.join(base, "queries.graphql"), "w").write(QUERIES)
+            open(os.path.join(base, "extra_helpers.py"), "w").write("HELPER = 1\n")
             r = subprocess.run([sys.executable, "-c", PROG_TWICE, base, json.dumps(list(plugins))], capture_output=True, text=True, timeout=300)
             if r.returncode != 0:
                 rep["outcome"][name] = r.stderr[-300:]
@@ -104,6 +113,22 @@ def replay_generation(seeds=(0, 1, 2, 3, 1000)):
             rep["outcome"][name] = dict(files=len(a), differing_files=differing)
             if differing:
                 rep["failed"].append(f"{name}: generated files differ between the first and the second generation")
+            # after the in-place edit the same interpreter must produce what a fresh interpreter produces from the edited inputs
+            fresh = os.path.join(base, "fresh")
+            os.makedirs(fresh)
+            shutil.copy(os.path.join(base, "schema.graphql"), fresh)
+            shutil.copy(os.path.join(base, "queries.graphql"), fresh)
+            r2 = subprocess.run([sys.executable, "-c", PROG, fresh, json.dumps(list(plugins))], capture_output=True, text=True, timeout=300)
+            if r2.returncode != 0:
+                rep["outcome"][name + ":fresh"] = r2.stderr[-300:]
+                rep["pre_ok"] = False
+                continue
+            c, d = _digest(os.path.join(base, "edited", "pkg")), _digest(os.path.join(fresh, "pkg"))
+            d["extra_helpers.py"] = c.get("extra_helpers.py")       # the fresh run has no files_to_include
+            stale = sorted(fn for fn in set(c) | set(d) if c.get(fn) != d.get(fn))
+            rep["outcome"][name + ":after-edit"] = dict(files=len(c), differing_files=stale)
+            if stale:
+                rep["failed"].append(f"{name}: after editing the operations file in place, the same interpreter generates something else than a fresh one")
         finally:
             shutil.rmtree(base, ignore_errors=True)
     return rep
